@@ -136,7 +136,7 @@ func runC05(b *mon.B) {
 	r := gen.New(uint64(b.Seed), 0xC05, uint64(b.Index))
 	secret := []byte("c05-secret-" + r.Alnum(8))
 	srv := kit.StartLib(secret, &c05Handler{})
-	srv.Net.KeepLog = false
+	srv.Net.SetKeepLog(false)
 	defer srv.Stop()
 	chunkings := map[string]bool{}
 	caseNo := 0
@@ -227,7 +227,7 @@ func runC05(b *mon.B) {
 	}
 
 	// ---- truncated and stalled streams
-	srv.Net.KeepLog = true
+	srv.Net.SetKeepLog(true)
 	for k := 0; k < b.N(60, 1200); k++ {
 		caseNo++
 		pk := c05Stream(r, false)
@@ -357,7 +357,7 @@ func runC05(b *mon.B) {
 			}
 		}
 	}
-	srv.Net.KeepLog = false
+	srv.Net.SetKeepLog(false)
 
 	// ---- client side
 	replyLayouts := map[int]string{1: rfc8907.AuthenReply, 2: rfc8907.AuthorReply, 3: rfc8907.AcctReply}
@@ -372,7 +372,7 @@ func runC05(b *mon.B) {
 		typ := 1 + r.Intn(3)
 		csecret := []byte(r.Alnum(1 + r.Intn(20)))
 		world := simnet.New()
-		world.KeepLog = false
+		world.SetKeepLog(false)
 		conn := world.NewConn(simnet.RemoteFor(k))
 		cl := tq.NewClientFromConn(conn, csecret)
 		var replies []pktSpec
